@@ -30,12 +30,15 @@ BUDGET = {"quick": 50, "thorough": 400}
 SUB8 = (rc.INTEGER8, rc.UNSIGNED8)
 
 
-def make_map(layout, pre=None, via="add", pre_same=None):
+def make_map(layout, pre=None, via="add", pre_same=None, own_clear=True, reread=0):
     """Build RPDO 1 of a fresh RemoteNode with `layout`.
     via='add'      add_variable() per entry
     via='from_od'  the mapping is described by the dictionary (defaults of 0x1400/0x1600) and
                    taken over with read(from_od=True)
     pre            another layout (other objects) the same map object held before clear()
+    own_clear      False (with via='from_od'): the earlier mapping is not cleared by the caller -
+                   read() itself replaces whatever the map held
+    reread         read(from_od=True) is repeated that many times on the same map object
     pre_same       a permutation of range(len(layout)): the SAME objects were mapped in that order
                    before (and looked up through the node), then clear() and the real order"""
     import canopen
@@ -71,7 +74,8 @@ def make_map(layout, pre=None, via="add", pre_same=None):
         for k, e in enumerate(pre):
             add(0x2100 + k, e)
         pmap.data[:] = b"\xde" * len(pmap.data)
-        pmap.clear()
+        if own_clear or via != "from_od":
+            pmap.clear()
     if pre_same:
         for k in pre_same:
             add(0x2000 + k, layout[k])
@@ -81,6 +85,8 @@ def make_map(layout, pre=None, via="add", pre_same=None):
         pmap.clear()                             # ... and then re-maps them in another order
     if via == "from_od":
         pmap.read(from_od=True)
+        for _ in range(reread):
+            pmap.read(from_od=True)
         vars_ = list(pmap.map)
     else:
         vars_ = [add(0x2000 + k, e) for k, e in enumerate(layout)]
@@ -152,7 +158,8 @@ def run_case(case) -> Outcome:
     elif any(e["len"] < 8 and e["dt"] in rc.SIGNED for e in layout):
         klass = "signed-subbyte"
     try:
-        node, pmap, vars_ = make_map(layout, case.get("pre"), case.get("via", "add"), case.get("pre_same"))
+        node, pmap, vars_ = make_map(layout, case.get("pre"), case.get("via", "add"), case.get("pre_same"),
+                                         case.get("own_clear", True), case.get("reread", 0))
         if len(vars_) != len(layout):
             bad("map-size", f"{layout}: {len(vars_)} variables mapped (via {case.get('via', 'add')})")
             return Outcome(nontrivial, klass, D)
@@ -357,6 +364,11 @@ def layout_case(draw):
             pre.append({"dt": dt, "len": ln})
             rem -= ln
         case["pre"] = pre
+    if case["via"] == "from_od":
+        if case.get("pre") and draw(st.booleans()):
+            case["own_clear"] = False
+        if draw(st.integers(0, 3)) == 0:
+            case["reread"] = draw(st.integers(1, 2))
     return case
 
 
@@ -383,6 +395,11 @@ def config_path_cases():
                    "ops": [{"var": len(layout) - 1, "v": values_for(dt, ln)[-1]}]}
     lay = [{"dt": rc.UNSIGNED8, "len": 4}, {"dt": rc.INTEGER16, "len": 16}, {"dt": rc.UNSIGNED8, "len": 8},
            {"dt": rc.BOOLEAN, "len": 1}]
+    # read() replaces what the map object held: a second read(), or a read() over a hand-made mapping
+    for extra in ({"reread": 1}, {"reread": 2}, {"pre": [{"dt": rc.UNSIGNED16, "len": 16}], "own_clear": False}):
+        yield dict({"layout": lay, "frame": bytes([0xA5] * 8), "via": "from_od", "lookup": "direct",
+                    "ops": [{"var": 0, "v": 9}, {"var": 1, "v": -2}, {"var": 2, "v": 200}, {"var": 3, "v": True}]},
+                   **extra)
     for perm in ([3, 2, 1, 0], [1, 0, 3, 2], [2, 3, 0, 1]):
         for lookup in ("node_name", "node_index", "map_name"):
             yield {"layout": lay, "frame": bytes(8), "pre_same": perm, "lookup": lookup,
